@@ -36,9 +36,7 @@ type crashRun struct {
 }
 
 func (r *crashRun) mon(s string) {
-	if len(r.st.Monitors) < 80 {
-		r.st.Monitors = append(r.st.Monitors, s)
-	}
+	addMonitor(&r.st.Monitors, s)
 }
 
 var errCrashed = errors.New("verif: the process is dead")
